@@ -147,6 +147,11 @@ def corpus():
         {"texts": ["{" * 400 + "x" + "}" * 400, "fine"], "opt": 5, "inplace": False, "then": None},
         {"texts": ["M\u00fcller & S\u00f6hne {GmbH} 50% ~x\\y"], "opt": 2, "inplace": True, "then": 4},
     ] + [
+        # a library that already holds error blocks (first stage: a failing custom coder) goes through a second middleware
+        {"texts": t, "opt": o, "inplace": True, "then": th, "rot": r}
+        for t, o, th in ((["BOOM", "a \\& b {\\'e}", "50\\% off"], 7, 4), (["x BOOM", "a & b", "50% off \u00e9"], 8, 0), (["fine", "BOOM \\& x", "p \\_ q"], 7, 5))
+        for r in (0, 1, 3)
+    ] + [
         # entries and @strings built in code (no start line, no raw text): errors are contained all the same
         {"texts": t, "opt": o, "inplace": ip, "then": None, "rot": r, "noline": True}
         for t in (["fine", "fine", "fine", "BOOM"], ["BOOM"], ["fine", "BOOM", "fine"], ["fine", "x SILENT"], ["fine"])
@@ -252,6 +257,15 @@ def oracle(case):
     src = lib0.blocks
     if len(after) != len(src):
         return "block count changed"
+    if len(st) == 2:
+        # blocks that were error blocks before the last middleware ran are "other blocks": they - and the entry each holds - come
+        # out as they went in
+        mid = _mw(st[0][0], st[0][1], True).transform(_library(case))
+        snap = [enc(B.enc_block(b, prev=False)) if isinstance(b, M.MiddlewareErrorBlock) else None for b in mid.blocks]
+        fin = _mw(st[1][0], st[1][1], True).transform(mid)
+        for i, (s0, b) in enumerate(zip(snap, fin.blocks)):
+            if s0 is not None and enc(B.enc_block(b, prev=False)) != s0:
+                return "block %d was an error block before the last middleware ran; it (or the entry it holds) was changed by it" % i
     if len(st) == 1:
         # containment, computed independently: a block is an error block iff one of its texts fails to convert
         mw = _mw(st[0][0], st[0][1], True)
